@@ -1705,3 +1705,14 @@ def list_items(summ, name=None):
             val = n.elts[1]
         out.append((cond, key, val, n))
     return out
+
+
+def true_formula(summ):
+    """the condition under which the summarised predicate returns a true value: OR over its returns of (path condition AND truth of the returned expression)"""
+    fr = _Frame(summ.func, getattr(summ.func, '_module', summ.mod), ())
+    out = False
+    for g, n in summ.returns:
+        if n is None:
+            continue
+        out = disj(out, conj(g, summ.truth(n, fr)))
+    return out
